@@ -68,9 +68,11 @@ def check_quadrature(chk, F, cls, f, Kc):
     ws, gdC, gdT, cost = info["params"][:4]
     Lseg, Lk, Lstart, Lcost, Lsuffix = find_loops(info)
     i, k = Lseg.var, Lk.var
-    n = sp.Symbol("num_segments_", integer=True, positive=True)
-    Ks = sp.Symbol("integral_num_steps_", integer=True, positive=True)
-    T = sp.Indexed(sp.IndexedBase(ws + ".cache_times", real=True), i)
+    R_ = info["roles"]
+    n = sp.Symbol(R_["n"], integer=True, positive=True)
+    Ks = sp.Symbol(R_["Ks"], integer=True, positive=True)
+    T = sp.Indexed(sp.IndexedBase(R_["T"], real=True), i)
+    expl_arr = R_["expl"] or "?"
     cv, gt = sp.Symbol("cval", real=True), sp.Symbol("gt", real=True)
     where = loc(f, {"line": Lseg.line})
     sample = info["sample"]
@@ -112,7 +114,7 @@ def check_quadrature(chk, F, cls, f, Kc):
             syms = [s_ for s_ in sp.sympify(e.delta).free_symbols if s_.name.startswith("$")]
             if len(syms) == 1:
                 gdt_name = syms[0].name
-    expl = [e for e in Lseg.effects if e.target.endswith("explicit_time_grad_buffer") and e.op == "+="]
+    expl = [e for e in Lseg.effects if e.target == expl_arr and e.op == "+="]
     expl_name = None
     if expl:
         syms = [s_ for s_ in sp.sympify(expl[0].delta).free_symbols if s_.name.startswith("$")]
@@ -134,7 +136,7 @@ def check_quadrature(chk, F, cls, f, Kc):
     okf = okf and len(flush) == 1 and sym.is_zero(flush[0].key[0] - i) and len(expl) == 1 and sym.is_zero(expl[0].key[0] - i)
     chk.ob("C07-R1", "%s%s per-segment accumulators start at 0 and are added to slot i of dT / of the explicit-time buffer" % (cls, inst), okf, where, "", construct="%s/quad%s/flush" % (cls, inst))
     st = I.effects
-    okz = any(e.target.endswith("explicit_time_grad_buffer") and e.op == "setZero" for e in st)
+    okz = any(e.target == expl_arr and e.op == "setZero" for e in st)
     chk.ob("C07-R1", "%s%s explicit-time buffer is zeroed before the quadrature" % (cls, inst), okz, loc(f), "", construct="%s/quad%s/explicit-zero" % (cls, inst))
     # suffix accumulation: dS_i/dT_j = 1 for j < i, i.e. dT[k] += sum of e[m] over m = k+1 .. N-1 for k = 0 .. N-2.
     # Read off the loop as it is written: a descending index iv, an accumulator acc += e[iv + a], a write
@@ -150,7 +152,7 @@ def check_quadrature(chk, F, cls, f, Kc):
         if not (acc is not None and len(Lsuffix.carried) == 1 and len(ea) == 1 and ea[0].op == "+=" and len(eg) == 1 and eg[0].op == "+=" and Lsuffix.step == -1 and Lsuffix.cond_op in (">", ">=") and Lsuffix.hi is not None):
             raise Broken("suffix loop of the explicit-time terms has an unexpected shape (accumulators %s, stores %s)" % (list(Lsuffix.carried), [e.target for e in Lsuffix.effects]))
         ex = list(sp.sympify(ea[0].delta).atoms(sp.Indexed))
-        if not (len(ex) == 1 and str(ex[0].base).split("#")[0].endswith("explicit_time_grad_buffer") and sym.is_zero(ea[0].delta - ex[0])):
+        if not (len(ex) == 1 and str(ex[0].base).split("#")[0] == expl_arr and sym.is_zero(ea[0].delta - ex[0])):
             raise Broken("suffix loop accumulates %s, not one element of the explicit-time buffer" % ea[0].delta)
         a_off = sp.expand(ex[0].indices[0] - iv)
         b_off = sp.expand(eg[0].key[0] - iv)
@@ -183,6 +185,12 @@ def check_liveness(chk, F, cls, f):
     wsrec = cls + "::Workspace"
     spline_cls = next(x["ty"]["n"] for x in F.record(wsrec)["fields"] if x["name"] == "spline")
     W = WsDef(F, cls, wsrec, spline_cls, {})
+    try:
+        from .c16 import discover_roles
+        from ..effects import Effects as _Eff
+        W.count_member = discover_roles(F, _Eff(F), cls)[1]["COUNT"]
+    except Broken:
+        pass
     W.fn_stack.append(f)
     W.stmts(f["body"]["body"])
     if len(W.carrying) < 4:
